@@ -19,6 +19,12 @@ class ExtractError(Exception):
     pass
 
 
+# Anchors of proof hints (@loop / @at / @subst) that no longer exist in the source. The function is still
+# emitted with its @spec contract; the hints that lost their anchor are dropped and recorded here, and the
+# back end treats failed obligations of such a function as undecided (never as an alarm by themselves).
+LOST = []
+
+
 # ----------------------------------------------------------------------------- tokens
 
 def stoks(src, line=0, origin=None):
@@ -749,7 +755,8 @@ def place_marks(body, fc):
             else:
                 k, what = int(m.group(1)), m.group(2)
             if k < 1 or k > len(loops):
-                raise ExtractError("lost anchor: %s has no loop %d (contract %s:%d)" % (fc.path, k, *fc.where))
+                LOST.append((fc.path, "%s has no loop %d (contract %s:%d)" % (fc.path, k, *fc.where)))
+                continue
             kw = loops[k - 1]
             o = _loop_body_open(body, kw)
             c = match_close(body, o)
@@ -768,8 +775,9 @@ def place_marks(body, fc):
                     break
                 start = hit[0] + 1
             if hit is None:
-                raise ExtractError("lost anchor: %s has no call %d of `%s` (contract %s:%d)"
-                                   % (fc.path, nth, m.group(3), *fc.where))
+                LOST.append((fc.path, "%s has no call %d of `%s` (contract %s:%d)"
+                             % (fc.path, nth, m.group(3), *fc.where)))
+                continue
             if m.group(1) == "before":
                 pos = sidx(body, _stmt_start(body, hit[0], 0))
             else:
@@ -1177,8 +1185,8 @@ def rewrite_fn(item, fc, cfg, opts, overlay):
     for pat, repl, _, _ in (fc.substs if fc else []):
         n = apply_subst(body, pat, repl) + apply_subst(hdr, pat, repl)
         if n == 0:
-            raise ExtractError("lost anchor: @subst pattern `%s` not found in %s (contract %s:%d)"
-                               % (" ".join(pat), fc.path, *fc.where))
+            LOST.append((fc.path, "@subst pattern `%s` not found in %s (contract %s:%d)"
+                         % (" ".join(pat), fc.path, *fc.where)))
     for pat, repl, _, _ in overlay.global_substs:
         apply_subst(body, pat, repl)
         apply_subst(hdr, pat, repl)
@@ -1393,6 +1401,7 @@ def assemble(repo, unit, cfg, opts=None):
     """unit: dict with keys files [(rel, modpath)], overlays [paths], prelude [paths], spec [paths]."""
     from common import read
     opts = dict(unit.get("opts") or {}, **(opts or {}))   # unit-level rule options, overridable per run
+    del LOST[:]
     ov = Overlay()
     ov.cfgname = cfg.name
     for p in unit.get("assumed_overlays", []):
@@ -1646,6 +1655,7 @@ def assemble(repo, unit, cfg, opts=None):
         asm.emit("\n")
     asm.emit("} // verus!\nfn main() {}\n")
     asm.modules = ["crate"] + mods
+    asm.lost = list(LOST)
     text, linemap = asm.finish()
     return text, linemap, asm, ov, table
 
